@@ -185,6 +185,7 @@ type vc08Store struct {
 	order      []int
 	rolledBack chan struct{} // closed when a held call's transaction has been rolled back (write lock released)
 	release    chan struct{} // closed to let the held OnRollback functions run
+	otherDone  chan struct{} // closed when the racing call has returned
 }
 
 func (v *vc08Store) Write(ctx context.Context, fn func(stoabs.WriteTx) error, opts ...stoabs.TxOption) error {
@@ -204,6 +205,13 @@ func (v *vc08Store) Write(ctx context.Context, fn func(stoabs.WriteTx) error, op
 					if isFirst {
 						close(v.rolledBack)
 						<-v.release
+					} else {
+						// the window BETWEEN two rollback handlers (e.g. one that releases a lock and the one that
+						// reloads): give the racing call the chance to run in it
+						select {
+						case <-v.otherDone:
+						case <-time.After(30 * time.Millisecond):
+						}
 					}
 					stoabs.OnRollbackOption{}.Invoke([]stoabs.TxOption{orig})
 				}))
@@ -817,14 +825,15 @@ func (r *vc08Run) exec(op *vc08Op) {
 			r.tx(a)
 			r.tx(b)
 			r.db.order = nil
-			r.db.rolledBack, r.db.release = make(chan struct{}), make(chan struct{})
+			r.db.rolledBack, r.db.release, r.db.otherDone = make(chan struct{}), make(chan struct{}), make(chan struct{})
 			resA, resB := make(chan string, 1), make(chan string, 1)
 			go func() { resA <- r.doAddHold(a, 0, true) }()
 			select {
 			case <-r.db.rolledBack:
 			case <-time.After(5 * time.Second):
 			}
-			go func() { resB <- r.doAdd(b, 1) }()
+			otherDone := r.db.otherDone
+			go func() { x := r.doAdd(b, 1); close(otherDone); resB <- x }()
 			rb, gotB := "", false
 			select {
 			case rb = <-resB:
@@ -1114,7 +1123,18 @@ func (g *vc08Gen) history(label string, n, width int) {
 				b = g.newTx(a.Pi, a.Clk)
 			}
 			fa := *a
-			fa.Fail = []string{"fn", "ctx"}[g.rng.Intn(2)]
+			switch g.rng.Intn(3) {
+			case 0:
+				fa.Fail = "fn"
+			case 1:
+				fa.Fail = "ctx"
+			default: // the XOR leaf put fails: memory already holds the transaction in both trees
+				fa.Payload = "nil"
+				fa.Put = 6
+				if fa.Clk > g.maxClock {
+					fa.Put = 7
+				}
+			}
 			g.ops = append(g.ops, &vc08Op{Op: "race", adds: []*vc08Op{&fa, b}, fullObs: true})
 			g.commit(b)
 			if g.rng.Intn(2) == 0 {
